@@ -163,6 +163,12 @@ def runCase (hdr : List String) (ops : List String) : List String :=
   -- the model is a function of its current arguments (and the salt) only, so the answers are
   -- those of mode `x`; the comparison checks the real code has no memory of earlier calls.
   | ["hist"] => "ok" :: ops.map fun l => step (toks l)
+  -- arena mode: the harness passes secret, additional data and plaintext / message of every call
+  -- as windows of ONE arena (any order, adjacent or apart, live data and canaries in the spare
+  -- capacity) and checks after the call that the arena is unchanged (except the message window of
+  -- `SaltBySecret*Decrypt` with reuse) and that earlier results did not change.  The model's entry
+  -- points take VALUES and return values: the answers are those of mode `x`.
+  | ["arena"] => "ok" :: ops.map fun l => step (toks l)
   | _ => "bad-op" :: ops.map fun _ => "bad-op"
 
 end Golib.C09
